@@ -7,6 +7,9 @@ package vecfc
 // Vector clocks are byte strings: LowestAfterSeq holds one little-endian uint32 per branch,
 // HighestBeforeSeq two (Seq, MinSeq). Reading beyond the end yields zero.
 //
+//@ // gHB / gLA model the stored vectors of an event (what GetHighestBefore / GetLowestAfter return: cache or table)
+//@ ghost gHB[hash.Event] *HighestBeforeSeq
+//@ ghost gLA[hash.Event] *LowestAfterSeq
 //@ const MaxI32 = 2147483647
 //@ // well-formed vectors: whole entries, length fits the 32-bit index arithmetic
 //@ spec lawf(b []byte) bool = len(b) % 4 == 0 && len(b) <= 4294967292
@@ -152,3 +155,39 @@ package vecfc
 //@   loop 1 hint assert hbSeq(deref(self), iterold(branchID)) == cfSeq(old(hbSeq(deref(self), iterold(branchID))), old(hbMin(deref(self), iterold(branchID))), hbSeq(deref(other), iterold(branchID)), hbMin(deref(other), iterold(branchID)))
 //@   loop 1 hint assert hbMin(deref(self), iterold(branchID)) == cfMin(old(hbSeq(deref(self), iterold(branchID))), old(hbMin(deref(self), iterold(branchID))), hbSeq(deref(other), iterold(branchID)), hbMin(deref(other), iterold(branchID)))
 //@   loop 1 invariant [rest] forall(j int, j >= branchID ==> hbSeq(deref(self), j) == old(hbSeq(deref(self), j)) && hbMin(deref(self), j) == old(hbMin(deref(self), j)))
+//@
+//@ // ---- forkless cause (C05) ----
+//@ funcfield Index.crit
+//@   ensures true
+//@ // assumed: the vector caches and tables return the vector stored for the event (nil if none); stored vectors are well-formed
+//@ trusted func (*Index).GetHighestBefore
+//@   requires vi != nil
+//@   ensures  result == gHB[id] && (result != nil ==> hbwf(deref(result)))
+//@ trusted func (*Index).GetLowestAfter
+//@   requires vi != nil
+//@   ensures  result == gLA[id] && (result != nil ==> lawf(deref(result)))
+//@
+//@ // seesB(a, b, br): the highest event of branch br observed by A (vector a) is a descendant-or-self of B (vector b),
+//@ // and A observes no fork on that branch
+//@ spec seesB(a []byte, b []byte, br int) bool = laGet(b, br) != 0 && laGet(b, br) <= hbSeq(a, br) && !hbFork(a, br)
+//@ // cntd(.., k, c): validator index c owns one of the first k branches that satisfy seesB
+//@ spec cntd(a []byte, b []byte, cr []idx.Validator, k int, c int) bool = k > 0 && (cntd(a, b, cr, k-1, c) || (cr[k-1] == c && seesB(a, b, k-1)))
+//@ // fcw(.., k, w, n): total weight of the validator indices below n that satisfy cntd(.., k, .): every validator counts once
+//@ spec fcw(a []byte, b []byte, cr []idx.Validator, k int, w []pos.Weight, n int) int = ite(n <= 0, 0, fcw(a, b, cr, k, w, n-1) + ite(cntd(a, b, cr, k, n-1), w[n-1], 0))
+//@ lemma fcw_eq(a []byte, b []byte, cr []idx.Validator, k int, w []pos.Weight, al []bool, n int) by induction(n)
+//@   requires forall(i, 0, n, al[i] == cntd(a, b, cr, k, i))
+//@   ensures  wsum(al, w, n) == fcw(a, b, cr, k, w, n)
+//@
+//@ // forklessCause(A, B): false if A observes a fork by B's creator (B's branch is marked in A's vector); otherwise true
+//@ // exactly when the validators that own a branch on which A observes, without fork, an event that observes B hold a quorum
+//@ func (*Index).forklessCause
+//@   requires vi != nil && vi.Engine != nil && vi.crit != nil && valid(vi.validators) && vi.Engine.validators == vi.validators && biwf(vi.Engine.bi, len(vi.validators.values))
+//@   ensures  [noA] gHB[aID] == nil ==> !result
+//@   ensures  [cheater] gHB[aID] != nil && len(vi.Engine.bi.BranchIDCreatorIdxs) > len(vi.validators.values) && hbFork(deref(gHB[aID]), gBranchOf[bID]) ==> !result
+//@   ensures  [noB] gLA[bID] == nil ==> !result
+//@   ensures  [quorum] gHB[aID] != nil && gLA[bID] != nil && !(len(vi.Engine.bi.BranchIDCreatorIdxs) > len(vi.validators.values) && hbFork(deref(gHB[aID]), gBranchOf[bID])) ==>
+//@            result == (fcw(deref(gHB[aID]), deref(gLA[bID]), vi.Engine.bi.BranchIDCreatorIdxs, len(vi.Engine.bi.BranchIDCreatorIdxs), vi.validators.cache.weights, len(vi.validators.values)) >= vi.validators.cache.totalWeight*2/3 + 1)
+//@   loop 1 modifies yes.sum, yes.already[*]
+//@   loop 1 invariant 0 <= _k && _k <= len(branchIDs) && cinv(yes) && yes.validators.values == vi.validators.values && yes.validators.cache.weights == vi.validators.cache.weights && yes.validators.cache.totalWeight == vi.validators.cache.totalWeight
+//@   loop 1 invariant forall(i, 0, len(vi.validators.values), yes.already[i] == cntd(deref(a), deref(b), branchIDs, _k, i))
+//@   loop 1 exithint use fcw_eq(deref(a), deref(b), branchIDs, _k, vi.validators.cache.weights, yes.already, len(vi.validators.values))
